@@ -6,7 +6,7 @@ WT="$1"; MD="$2"; PROP="$3"; TIER="${4:-quick}"; SEED="${5:-0}"
 set -u
 cd "$WT" || exit 9
 git checkout -q -- xeofs
-git checkout -q --detach "$(git -C /repo rev-parse HEAD)"    # same baseline as /repo (incl. later fix: commits)
+git checkout -q --detach "${BASE:-$(git -C /repo rev-parse HEAD)}"    # same baseline as /repo (incl. later fix: commits) unless BASE is given
 echo "baseline $(git rev-parse --short HEAD)"
 echo "== clean: demo"; /venv/bin/python "$MD/demo.py" > /tmp/em_clean.out 2>&1; C=$?; tail -2 /tmp/em_clean.out
 git apply "$MD/patch.diff" || { echo "patch does not apply"; exit 9; }
